@@ -36,6 +36,7 @@ Definition min_key (l : list ckey) : option ckey :=
 Definition identifiers_fresh (seq : list pstr) (struct : list chr) : res (ckey * Z * list ckey) :=
   if negb (length seq =? length struct) then Err eObjectInit else
   let n := n_strands seq in
+  if n =? 0 then Err eObjectInit else          (* 'no strands' *)
   dor rots <- rot_record n (seq, struct);
   match min_key rots with
   | None => Err eIndex
